@@ -36,8 +36,16 @@ class LoopSpec:
 
   def __init__(self, key, invariants, modifies=None, variant=None,
                props=(), ordinal=None, ghost=None, extra_modifies=None,
-               variant_lemmas=None, export_visited=None):
+               variant_lemmas=None, export_visited=None, must_call=None,
+               must_iterate=None, no_break=False, props_flow=('C03',)):
     self.key = key
+    # completeness of an enumeration: on every path through the body that
+    # does not `continue`, the named call is made / the named inner loop is
+    # entered; and the loop is never left early
+    self.must_call = must_call
+    self.must_iterate = must_iterate
+    self.no_break = no_break
+    self.props_flow = tuple(props_flow)
     # name under which the ghost set of visited elements is visible to the
     # invariants of loops nested in this one
     self.export_visited = export_visited
